@@ -7,6 +7,7 @@
 // The guards below are the guards of SkeletonBlocker.tla evaluated on the simplex set read through contains().
 #include "skbl_model.hpp"
 
+#include <sys/resource.h>
 #include <sys/wait.h>
 
 using namespace vf;
@@ -88,39 +89,40 @@ void execution(Model& m, std::mt19937_64& rng, int steps, int nv) {
     for (int tries = 0; tries < 300 && act.empty(); ++tries) {
       int c = rnd(100);
       int nvv = static_cast<int>(w.verts.size());
-      if (c < (nvv < 4 ? 40 : 8)) {
+      if (n == nv && nvv < 3 && rnd(2)) { act = {{"op", "clear"}}; break; }  // handles used up: start over
+      if (c < (nvv < 4 ? 45 : 6)) {
         if (n < nv) act = {{"op", "add_vertex"}};
-      } else if (c < 30) {
+      } else if (c < 36) {
         if (nvv < 2) continue;
         int a = w.verts[rnd(nvv)], b = w.verts[rnd(nvv)];
         if (a == b) continue;
         bool wb = style == 0 ? rnd(10) < 8 : (style == 1 ? rnd(10) < 3 : rnd(2) == 0);
         act = {{"op", wb ? "add_edge_wb" : "add_edge"}, {"a", a}, {"b", b}};
-      } else if (c < 34) {
+      } else if (c < 40) {
         VSet s = subset_of(w.verts, 3);
         if (s.empty()) continue;
         act = {{"op", "add_edges"}, {"s", jarr(s)}};
-      } else if (c < 50) {
+      } else if (c < 58) {
         VSet pool;
         if (contiguous && rnd(4) == 0) for (int v = 0; v < nv; ++v) pool.push_back(v); else pool = w.verts;
         VSet s = subset_of(pool, 3);
         if (s.empty() || w.has(s)) continue;
         act = {{"op", "add_simplex"}, {"s", jarr(s)}};
-      } else if (c < 72) {
-        VSet s = c < 56 ? pick_simplex(0, 0) : (c < 64 ? pick_simplex(1, 1) : pick_simplex(2, nv));
+      } else if (c < 80) {
+        VSet s = c < 61 ? pick_simplex(0, 0) : (c < 69 ? pick_simplex(1, 1) : pick_simplex(2, nv));
         if (s.empty()) continue;
         const char* via = "simplex";
         if (s.size() == 1 && rnd(2)) via = "vertex";
         if (s.size() == 2) { int r = rnd(3); via = r == 0 ? "pair" : (r == 1 ? "edge" : "simplex"); }
         act = {{"op", "remove_star"}, {"s", jarr(s)}, {"via", via}};
-      } else if (c < 76) {
+      } else if (c < 84) {
         VSet e = pick_simplex(1, 1);
         if (e.empty()) continue;
         bool blocked = false;
         for (auto& B : blockers(w, nv)) if (std::includes(B.begin(), B.end(), e.begin(), e.end())) blocked = true;
         if (blocked) continue;
         act = {{"op", "remove_edge"}, {"a", e[0]}, {"b", e[1]}, {"via", rnd(2) ? "pair" : "edge"}};
-      } else if (c < 78) {
+      } else if (c < 85) {
         std::vector<int> iso;
         for (int v : w.verts) {
           bool alone = true;
@@ -129,17 +131,17 @@ void execution(Model& m, std::mt19937_64& rng, int steps, int nv) {
         }
         if (iso.empty()) continue;
         act = {{"op", "remove_vertex"}, {"v", iso[rnd(static_cast<int>(iso.size()))]}};
-      } else if (c < 95) {
+      } else if (c < 97) {
         VSet e = pick_simplex(1, 1);
         if (e.empty()) continue;
         int r = rnd(2);
         act = {{"op", "contract"}, {"a", e[r]}, {"b", e[1 - r]}, {"via", rnd(2) ? "pair" : "edge"}};
-      } else if (c < 96) {
-        act = {{"op", "keep_only_vertices"}};
+      } else if (c < 98) {
+        if (rnd(3) == 0) act = {{"op", "keep_only_vertices"}};
       } else if (c < 99) {
         act = {{"op", "remove_blockers"}};
       } else {
-        act = {{"op", "clear"}};
+        if (rnd(3) == 0) act = {{"op", "clear"}};
       }
     }
     if (act.empty()) break;
@@ -164,7 +166,9 @@ void record(const std::string& path, std::uint64_t seed, int executions, int ste
     pid_t pid = fork();
     if (pid < 0) { std::perror("fork"); std::exit(2); }
     if (pid == 0) {
-      alarm(60);
+      // a corrupted object (after a deviation) may loop: the execution is cut after 5 s of CPU time
+      struct rlimit rl{5, 6};
+      setrlimit(RLIMIT_CPU, &rl);
       std::mt19937_64 rng(seed * 1000003ull + static_cast<std::uint64_t>(ex));
       Model m;
       execution(m, rng, steps, nv);
@@ -185,7 +189,7 @@ int main(int argc, char** argv) {
   int executions = std::atoi(argv[3]), steps = std::atoi(argv[4]), nv = std::atoi(argv[5]), files = std::atoi(argv[6]);
   g_nv = nv;
   g_heavy = false;
-  for (int s : {SIGSEGV, SIGABRT, SIGFPE, SIGBUS, SIGILL, SIGALRM}) std::signal(s, on_crash);
+  for (int s : {SIGSEGV, SIGABRT, SIGFPE, SIGBUS, SIGILL, SIGXCPU}) std::signal(s, on_crash);
   for (int f = 0; f < files; ++f) {
     std::string tag = std::to_string(f);
     if (f % 2 == 0) {
